@@ -101,13 +101,15 @@ class _PipeLike(io.RawIOBase):
 
 
 class _BlockAtATime(object):
-    """a source that hands over at most one 1014-byte block per read() call, however much is asked for (a transport that
-    delivers the file block by block): the unblocker asks for one block at a time, so this is all it needs"""
-    def __init__(self, data):
+    """a source that hands over at most `cap` bytes (one 1014-byte block; 1500; 4096) per read() call, however much is asked
+    for (a transport that delivers the file piece by piece): the unblocker asks for one block at a time, so a source
+    that can deliver a block per call is all it needs"""
+    def __init__(self, data, cap=1014):
         self._b = io.BytesIO(data)
+        self.cap = cap
 
     def read(self, n=-1):
-        return self._b.read(1014 if n is None or n < 0 or n > 1014 else n)
+        return self._b.read(self.cap if n is None or n < 0 or n > self.cap else n)
 
 
 def in_stream(data, blocked=False):
@@ -118,7 +120,7 @@ def in_stream(data, blocked=False):
     import zlib
     h = zlib.crc32(bytes(data))
     if blocked and h % 5 == 2:
-        return _BlockAtATime(bytes(data))
+        return _BlockAtATime(bytes(data), (1014, 1500, 4096)[(h >> 4) % 3])
     if h & 1:
         return io.BufferedReader(_PipeLike(bytes(data)))
     return io.BytesIO(data)
